@@ -633,6 +633,43 @@ static std::string run_script(const std::vector<std::string>& lines, std::ostrea
             }
             R << "pcreate workers=" << n << " created=" << total << " dup=" << dup << " invalid=" << invalid << " miscount=" << miscount;
         }
+        else if (op == "pcreatenew") {
+            // pcreatenew <rounds> <per>: in each round every worker creates, at the same time and under one lock, <per> entities with
+            // a component set for which no archetype exists yet (first use of that combination from inside tasks). Afterwards exactly
+            // one archetype has that set and holds exactly the entities created
+            int rounds, per; in >> rounds >> per;
+            static const int base[] = {0, 1, 2, 3, 4, 5, 6, 7, 12, 13};
+            for (int p : base) do_register(p, 0);
+            auto& disp = d.world->dispatcher();
+            const int n = int(disp.threadCount());
+            long dup_arch = 0, miscount = 0, invalid = 0, total = 0;
+            for (int r = 0; r < rounds && r < 1023; ++r) {
+                ComponentIdMask m;
+                for (int b = 0; b < 10; ++b) if ((r + 1) >> b & 1) m.set(d.cid[base[b]], true);
+                const auto want = m.items();
+                bool exists = false;
+                for (auto& a : em.archetypes_) if (a->mask_.items() == want) exists = true;
+                if (exists) continue;
+                std::vector<std::vector<Entity>> got(static_cast<size_t>(n));
+                std::atomic<int> started{0};
+                em.lock();
+                for (int i = 0; i < n; ++i) {
+                    disp.addParallelTask([&, i](ThreadId) {
+                        started++;
+                        while (started.load() < n) { }
+                        for (int k = 0; k < per; ++k) got[static_cast<size_t>(i)].push_back(em.create(m, SharedComponentsInfo{}));
+                    });
+                }
+                disp.waitForParallelFinish();
+                em.unlock();
+                size_t archs = 0, members = 0;
+                for (auto& a : em.archetypes_) if (a->mask_.items() == want) { ++archs; members += a->size(); }
+                if (archs != 1) ++dup_arch;
+                if (members != size_t(n) * size_t(per)) ++miscount;
+                for (auto& v : got) for (auto e : v) { ++total; if (!em.isEntityValid(e)) ++invalid; else em.destroyNow(e); }
+            }
+            R << "pcreatenew workers=" << n << " created=" << total << " dup_arch=" << dup_arch << " miscount=" << miscount << " invalid=" << invalid;
+        }
         else if (op == "arm") { arm(); }
         else if (op == "disarm") { disarm(); }
         else if (op == "create") {
